@@ -35,7 +35,8 @@ CONSTANTS
   VarOfRaw(_, _), RawOfVar(_, _),     \* TPL classes: var = raw * len_scale (hurst 1/2, rescale 1)
   Cfgs,                               \* set of configurations (see below)
   Cand, CandEv,                       \* adversary: argument name -> candidate values (optimum / evaluations)
-  MaxEv                               \* evaluations before the optimiser returns (>= 1)
+  MaxEv,                              \* free evaluations before the optimiser returns (>= 1)
+  InfTail                             \* BOOLEAN: one more evaluation, punished with an infinite cost, may follow
 
 VARIABLES cfg, phase, ialts, cp, cm, evs, popt, iends, cend, disc
 vars == <<cfg, phase, ialts, cp, cm, evs, popt, iends, cend, disc>>
@@ -152,13 +153,22 @@ ILate(c, pp) ==
   ELSE IF (\A p \in Params : ~pp.para[p]) /\ ~pp.fanis THEN [pp EXCEPT !.st = "nofit"]
   ELSE pp
 
+(* a fixed length scale drags the variance of a TPL model along before a fixed
+   variance is applied; whether that intermediate value has to respect the
+   variance bounds depends on the (unspecified) order of the assignments      *)
+TPLPassesBounds(c) ==
+  IsTPL(c) /\ IsFix(c, "len") /\ IsFix(c, "var")
+  /\ ~InB(c.bnd.var, VarOfRaw(RawOfVar(c.pre.var, c.pre.len), c.sel.len.v))
+
 IdealPre(c) ==
   IF c.unknown THEN {IErr(c, "unknown parameter in selection")}
   ELSE IF ~FixedOK(c) THEN {IErr(c, "fixed value out of bounds")}
   ELSE LET m1 == Fixed(c) IN
-       IF c.sill.k \in {"none", "true"}
-       THEN {ILate(c, IReady(c, Free(c), FALSE, m1.var, m1))}
-       ELSE {ILate(c, pp) : pp \in UNION {WithSill(c, m1, s) : s \in SillArgs(c, m1)}}
+       (IF TPLPassesBounds(c) THEN {IErr(c, "variance out of bounds while the fixed values are applied")} ELSE {})
+       \cup
+       (IF c.sill.k \in {"none", "true"}
+        THEN {ILate(c, IReady(c, Free(c), FALSE, m1.var, m1))}
+        ELSE {ILate(c, pp) : pp \in UNION {WithSill(c, m1, s) : s \in SillArgs(c, m1)}})
 
 (* the admissible optima: fitted values inside their bounds; under a prescribed
    sill the variance may not exceed it and the nugget it leaves must be legal  *)
@@ -217,9 +227,11 @@ ImplFixed(c) ==
       nug  |-> IF IsFix(c, "nug") THEN c.sel.nug.v ELSE c.pre.nug,
       opt  |-> IF IsFix(c, "opt") THEN c.sel.opt.v ELSE c.pre.opt,
       anis |-> c.pre.anis]
-ImplFixedOK(c) ==     \* every setter checks all bounds
+ImplFixedOK(c) ==     \* every setter checks all bounds (also the variance a TPL length scale drags along)
   /\ \A p \in Params : IsFix(c, p) => InB(c.bnd[p], c.sel[p].v)
   /\ InB(c.bnd.var, VarI(c, ImplFixed(c).raw, ImplFixed(c).len))
+  /\ ((IsTPL(c) /\ IsFix(c, "len")) =>
+        InB(c.bnd.var, VarOfRaw(RawI(c, c.pre.var, c.pre.len), c.sel.len.v)))
 
 (* tail of _pre_para (anis), method check, _check_vario, `anis &= is_dir_vario` *)
 CFinish(c, para, cs, s, m) ==
@@ -275,6 +287,10 @@ Infeasible(c, pp, x) == pp.para.var /\ pp.cs /\ ~InB(c.bnd.nug, Minus(pp.sill, x
 SetterRaises(c, pp, x) ==
   \/ \E p \in Params : pp.para[p] /\ ~InB(c.bnd[p], x[p])
   \/ (pp.fanis /\ ~AllInB(c.bnd.anis, x.anis))
+(* `model.len_scale = ...` on a TPL model: var_raw stays, the variance follows and
+   is checked before `model.var = ...` restores it *)
+DragRaises(c, pp, m, x) ==
+  IsTPL(c) /\ pp.para.len /\ ~InB(c.bnd.var, VarOfRaw(m.raw, x.len))
 
 ImplEval(c, pp, m, x) ==
   IF Infeasible(c, pp, x) THEN m
@@ -369,21 +385,26 @@ PrePara ==
                      THEN {} ELSE {"error:spurious"}
 
 Eval(x) ==
-  /\ phase = "ready" /\ Len(evs) < MaxEv
+  /\ phase = "ready"
+  /\ \/ Len(evs) < MaxEv
+     \/ (InfTail /\ Len(evs) = MaxEv /\ Infeasible(cfg, cp, x))
   /\ (Len(evs) = 0 => ~Infeasible(cfg, cp, x))     \* the start must have finite cost
   /\ evs' = Append(evs, x)
-  /\ UNCHANGED <<cfg, ialts, cp, popt>>
-  /\ IF ~Infeasible(cfg, cp, x) /\ SetterRaises(cfg, cp, x)
-     THEN /\ phase' = "done" /\ cend' = CEndErr(cfg) /\ cm' = cm
-          /\ iends' = {[st |-> "error", m |-> q.m] : q \in {r \in ialts : r.st = "error"}}
+  /\ UNCHANGED <<cfg, ialts, cp>>
+  /\ IF ~Infeasible(cfg, cp, x) /\ (SetterRaises(cfg, cp, x) \/ DragRaises(cfg, cp, cm, x))
+     THEN \* an exception leaves the closure, hence curve_fit and fit_variogram
+          /\ phase' = "done" /\ cend' = CEndErr(cfg) /\ cm' = cm /\ popt' = x
+          /\ iends' = {[st |-> IF q.st = "error" THEN "error" ELSE "success", m |-> q.m] :
+                         q \in {r \in ialts : r.st = "error" \/ (r.st = "ready" /\ InIdealBox(cfg, r, x))}}
           /\ disc' = disc \cup Disc(cfg, iends', cend')
      ELSE /\ cm' = ImplEval(cfg, cp, cm, x)
-          /\ UNCHANGED <<phase, iends, cend, disc>>
+          /\ UNCHANGED <<phase, popt, iends, cend, disc>>
 
 Finish(x) ==
   /\ phase = "ready" /\ Len(evs) >= 1 /\ ~Infeasible(cfg, cp, x)
   /\ popt' = x /\ phase' = "done"
-  /\ cend' = IF SetterRaises(cfg, cp, x) THEN CEndErr(cfg) ELSE ImplPost(cfg, cp, cm, x)
+  /\ cend' = IF SetterRaises(cfg, cp, x) \/ DragRaises(cfg, cp, cm, x)
+              THEN CEndErr(cfg) ELSE ImplPost(cfg, cp, cm, x)
   /\ iends' = IEnds(cfg, ialts, x)
   /\ disc' = disc \cup Disc(cfg, iends', cend')
   /\ UNCHANGED <<cfg, ialts, cp, cm, evs>>
@@ -397,12 +418,19 @@ Spec == Init /\ [][Next]_vars
 -----------------------------------------------------------------------------
 (* invariants of the documented semantics (must hold) *)
 
-(* every ideal optimum satisfies the clauses of C10 *)
+(* every ideal optimum (over the candidate lattice) satisfies the clauses of C10 *)
+IdealVecs(c, pp) ==
+  {x \in {[var |-> a, len |-> l, nug |-> n, opt |-> o, anis |-> s] :
+            a \in IF pp.para.var THEN Cand.var ELSE {pp.m.var},
+            l \in IF pp.para.len THEN Cand.len ELSE {pp.m.len},
+            n \in IF pp.para.nug THEN Cand.nug ELSE {pp.m.nug},
+            o \in IF pp.para.opt THEN Cand.opt ELSE {pp.m.opt},
+            s \in IF pp.fanis THEN [1..(c.dim - 1) -> Cand.anis] ELSE {pp.m.anis}} :
+     InIdealBox(c, pp, x)}
 IdealSound ==
-  phase = "ready" =>
+  phase # "start" =>
     \A pp \in {q \in ialts : q.st = "ready"} :
-      \A x \in {y \in Vecs(cfg, cp, Cand) : InIdealBox(cfg, pp, y)} :
-        EndOK(cfg, pp, IdealPost(cfg, pp, x))
+      \A x \in IdealVecs(cfg, pp) : EndOK(cfg, pp, IdealPost(cfg, pp, x))
 
 (* a ready ideal outcome has legal values for everything that is not fitted *)
 IdealPreLegal ==
